@@ -5,7 +5,13 @@ use texlang::*;
 
 /// Get the `\mathchardef` command.
 pub fn get_mathchardef<S: TexlangState>() -> command::BuiltIn<S> {
-    command::BuiltIn::new_execution(mathchardef_primitive_fn)
+    command::BuiltIn::new_execution(mathchardef_primitive_fn).with_tag(mathchardef_tag())
+}
+
+static MATHCHARDEF_TAG: command::StaticTag = command::StaticTag::new();
+
+pub fn mathchardef_tag() -> command::Tag {
+    MATHCHARDEF_TAG.get()
 }
 
 fn mathchardef_primitive_fn<S: TexlangState>(
